@@ -20,6 +20,7 @@ import (
 	"go/format"
 	"go/types"
 	"strconv"
+	"strings"
 )
 
 // TypesMap is a map of input types to function names.
@@ -74,12 +75,21 @@ func (tm *typesMap) TypeString(typ types.Type) string {
 }
 
 func (tm *typesMap) FieldStrings(fields []*types.Var) ([]string, error) {
-	strct := types.NewStruct(fields, nil)
-	strctStr, err := format.Source([]byte("var a " + tm.TypeString(strct)))
+	// Every field is placed on its own line, since gofmt leaves a struct with less than two fields on a single line.
+	src := "var a struct {\n"
+	for _, field := range fields {
+		fieldStr := tm.TypeString(types.NewStruct([]*types.Var{field}, nil))
+		src += strings.TrimSuffix(strings.TrimPrefix(fieldStr, "struct{"), "}") + "\n"
+	}
+	src += "}"
+	strctStr, err := format.Source([]byte(src))
 	if err != nil {
 		return nil, err
 	}
 	strctLines := bytes.Split(strctStr, []byte{'\n'})
+	if len(strctLines) < 2 {
+		return nil, fmt.Errorf("expected the fields between an opening and a closing line, but got %s", strctStr)
+	}
 	ss := make([]string, len(strctLines)-2)
 	for i := range strctLines[1 : len(strctLines)-1] {
 		ss[i] = string(bytes.TrimSpace(strctLines[i+1]))
